@@ -137,6 +137,8 @@ def genlife(chk, st):
 def extra(chk, st):
     async_adapters(chk, st)
     genlife(chk, st)
+    import p_dupadapt
+    p_dupadapt.stage(chk, "C16")
 
 
 def main(tier, seed):
@@ -153,6 +155,9 @@ def replay(path):
         for c, o in zip(cases, impl):
             print(c, "->", o[:200])
         return 0 if all("epoll_clean=1" in o and "readapt=1" in o for o in impl) else 1
+    if "dupadapt case" in txt:
+        import p_dupadapt
+        return p_dupadapt.replay(path)
     if "genlife case:" in txt:
         import vlib
         cases = [l.split(":", 1)[1].strip() for l in txt.split("\n") if l.startswith("genlife case:")]
